@@ -171,9 +171,15 @@ func (h *hmapType) enumCtor(fi *core.FuncInfo) (*types.Named, map[string]ast.Exp
 
 // enumYields: static types of what et.<next>() can return when built by ctor.
 func (h *hmapType) enumYields(ctor *core.FuncInfo, next string) ([]types.Type, bool) {
+	ts, _, ok := h.enumYieldsX(ctor, next)
+	return ts, ok
+}
+
+// enumYieldsX also hands back the returned expressions themselves.
+func (h *hmapType) enumYieldsX(ctor *core.FuncInfo, next string) ([]types.Type, []ast.Expr, bool) {
 	et, given := h.enumCtor(ctor)
 	if et == nil {
-		return nil, false
+		return nil, nil, false
 	}
 	cinfo := ctor.Pkg.TypesInfo
 	var m *core.FuncInfo
@@ -183,7 +189,7 @@ func (h *hmapType) enumYields(ctor *core.FuncInfo, next string) ([]types.Type, b
 		}
 	}
 	if m == nil {
-		return nil, false
+		return nil, nil, false
 	}
 	info := m.Pkg.TypesInfo
 	rn := recvName(m)
@@ -207,6 +213,7 @@ func (h *hmapType) enumYields(ctor *core.FuncInfo, next string) ([]types.Type, b
 		return "", false
 	}
 	var out []types.Type
+	var outE []ast.Expr
 	var walk func(list []ast.Stmt)
 	walkStmt := func(s ast.Stmt) { walk([]ast.Stmt{s}) }
 	walk = func(list []ast.Stmt) {
@@ -219,6 +226,7 @@ func (h *hmapType) enumYields(ctor *core.FuncInfo, next string) ([]types.Type, b
 					}
 					if t := info.TypeOf(e); t != nil {
 						out = append(out, t)
+						outE = append(outE, e)
 					}
 				}
 			case *ast.BlockStmt:
@@ -310,5 +318,82 @@ func (h *hmapType) enumYields(ctor *core.FuncInfo, next string) ([]types.Type, b
 		}
 	}
 	walk(m.Decl.Body.List)
-	return out, true
+	return out, outE, true
+}
+
+// checkForeign: a collection's bucket table holds only entries the collection made itself. An entry
+// (or a whole bucket array) taken over from another instance of the type is shared: a later put,
+// removal or growth on one instance rewrites chains the other still walks. Reported: copy(recv.table,
+// other.table), recv.table = other.table, recv.table[i] = other.table[j] / an entry walked out of
+// other's chains, where `other` is a parameter (or local) of the collection's own type.
+func (h *hmapType) checkForeign() {
+	n := 0
+	for _, fi := range h.p.MethodsOf(h.t) {
+		if fi.Decl.Body == nil {
+			continue
+		}
+		info := fi.Pkg.TypesInfo
+		rn := recvName(fi)
+		// other instances: identifiers of the collection's type other than the receiver
+		isOther := func(e ast.Expr) bool {
+			root := rootOf(e)
+			if root == nil || root.Name == rn {
+				return false
+			}
+			nt := namedOf(info.TypeOf(root))
+			return nt != nil && nt.Obj() == h.t.Obj()
+		}
+		isTableOf := func(e ast.Expr, own bool) bool {
+			e = ast.Unparen(e)
+			if ix, ok := e.(*ast.IndexExpr); ok {
+				e = ast.Unparen(ix.X)
+			}
+			if sl, ok := e.(*ast.SliceExpr); ok {
+				e = ast.Unparen(sl.X)
+			}
+			sel, ok := e.(*ast.SelectorExpr)
+			if !ok || sel.Sel.Name != "table" {
+				return false
+			}
+			if own {
+				id, ok := ast.Unparen(sel.X).(*ast.Ident)
+				return ok && id.Name == rn
+			}
+			return isOther(sel.X)
+		}
+		var probs []string
+		touches := false
+		ast.Inspect(fi.Decl.Body, func(m ast.Node) bool {
+			switch v := m.(type) {
+			case *ast.CallExpr:
+				if id, ok := v.Fun.(*ast.Ident); ok && id.Name == "copy" && len(v.Args) == 2 {
+					if isTableOf(v.Args[0], true) {
+						touches = true
+						if isTableOf(v.Args[1], false) {
+							probs = append(probs, h.p.Pos(v.Pos())+": copy() of another instance's bucket array into this one: both collections now share their chain entries")
+						}
+					}
+				}
+			case *ast.AssignStmt:
+				for i, l := range v.Lhs {
+					if i >= len(v.Rhs) || !isTableOf(l, true) {
+						continue
+					}
+					touches = true
+					if isTableOf(v.Rhs[i], false) {
+						probs = append(probs, h.p.Pos(v.Pos())+": a bucket (array) of another instance is installed in this one: both collections now share their chain entries")
+					}
+				}
+			}
+			return true
+		})
+		if touches {
+			n++
+			if len(probs) > 0 {
+				h.r.Viol(h.pre+".own-entries", h.name+"."+fi.Obj.Name(), h.p.Pos(fi.Decl.Pos()), strings.Join(uniq(probs), "; "))
+			} else {
+				h.r.OK(h.pre+".own-entries", h.name+"."+fi.Obj.Name(), h.p.Pos(fi.Decl.Pos()), "the table is filled from this instance only")
+			}
+		}
+	}
 }
